@@ -1,5 +1,5 @@
 """C10 — attributes and descriptive metadata are returned exactly as last set."""
-from engine.h4v import H, libhdf_units
+from engine.h4v import H, libhdf_units, libmfhdf_units
 
 META = dict(
     bounds=["S1: 5 Vdata/field attributes + 3 Vgroup attributes, 3 GR file / image attributes (6 number types, counts 1..4, names incl. a prefix-duplicate and equal names on "
@@ -20,4 +20,9 @@ def plan(ctx, tier, seed):
         hs.append(H("C10.S1.m%d.o%d" % (mode, ropen), "C10", src="harness/C10/s1_attr.c", units=libhdf_units(), models=["memio", "herr", "memloops", "printf"],
                     defs={"MODE": mode, "ROPEN": ropen, "MEMIO_DISK_SZ": 8192}, unwind=5000, kind="S", timeout=2000, symbolic="attribute value bytes",
                     bound="concrete attribute history", group="C10.S1", hang_is_violation=True))
+    lower = ["mfhdf/src/putget.c", "mfhdf/src/var.c", "mfhdf/src/array.c", "mfhdf/src/putgetg.c", "mfhdf/src/mfsd.c", "mfhdf/src/cdf.c", "mfhdf/src/attr.c", "mfhdf/src/dim.c"]
+    for mode in (0, 1):
+        hs.append(H("C10.S2.sd.m%d" % mode, "C10", src="harness/C10/s2_sdattr.c", units=libhdf_units() + libmfhdf_units(), models=["memio", "herr", "memloops", "printf"],
+                    defs={"MODE": mode, "MEMIO_DISK_SZ": 8192}, unwind=5000, kind="S", timeout=1500, mf=True, lower=lower, symbolic="attribute / metadata value bytes",
+                    bound="one SD session, concrete call history", group="C10.S2", hang_is_violation=True))
     return hs
